@@ -31,6 +31,12 @@ class Spans:
         self.parts = self.parts + other.parts
         return self
 
+    def __radd__(self, other):
+        # `bytes() + Spans` (StreamWrapper.readall starts from an empty bytes object)
+        if isinstance(other, (bytes, bytearray)) and len(other) == 0:
+            return Spans(self.parts)
+        return NotImplemented
+
     def __getitem__(self, sl):
         # only prefix slices buffer[:n] are used by the code under analysis
         if not (isinstance(sl, slice) and sl.start is None and sl.step is None):
